@@ -126,16 +126,21 @@ func shard(a []string) int {
 		return core.ExitTrouble
 	}
 	// Safety net only: a wall-clock watchdog that exits 2, never VIOLATION.
-	limit := 30 * time.Minute
+	limit := 12 * time.Minute
 	if tier == "thorough" {
 		limit = 8 * time.Hour
 	}
+	ctx := core.NewCtx(prop, tier, envSeed())
+	t0 := time.Now()
 	go func() {
 		time.Sleep(limit)
-		fmt.Fprintf(os.Stderr, "dst: shard %d watchdog fired after %v\n", k, limit)
+		// The code under test spins without touching a simulated seam (or the machine is
+		// far too slow). That is trouble, not a verdict; but what this shard already found
+		// is real and is handed over before giving up.
+		fmt.Fprintf(os.Stderr, "dst: shard %d watchdog fired after %v in run %d (exit 2 unless violations were found)\n", k, limit, ctx.Run())
+		ctx.WriteShard(out, time.Since(t0).Seconds())
 		os.Exit(core.ExitTrouble)
 	}()
-	ctx := core.NewCtx(prop, tier, envSeed())
 	ctx.Shard, ctx.Shards = k, n
 	ctx.ReplayDir = filepath.Join(root(), "replays")
 	if t := os.Getenv("VERIF_TRACE"); t != "" {
@@ -145,7 +150,6 @@ func shard(a []string) int {
 			defer f.Close()
 		}
 	}
-	t0 := time.Now()
 	if meta.Setup != nil {
 		if err := meta.Setup(ctx); err != nil {
 			fmt.Fprintln(os.Stderr, "dst: setup:", err)
@@ -248,9 +252,6 @@ func check(prop, tier string) int {
 			trouble = true
 		}
 	}
-	if trouble {
-		return core.ExitTrouble
-	}
 	wall := time.Since(t0).Seconds()
 
 	// Merge in shard order (shards hold disjoint run indices; everything merged is a sum, a set union or sorted).
@@ -269,6 +270,9 @@ func check(prop, tier string) int {
 	for k := range outs {
 		data, err := os.ReadFile(outs[k])
 		if err != nil {
+			if trouble {
+				continue // that shard died without handing anything over
+			}
 			fmt.Fprintln(os.Stderr, "dst:", err)
 			return core.ExitTrouble
 		}
@@ -391,7 +395,11 @@ func check(prop, tier string) int {
 	fmt.Printf("dst: %s %s: runs=%d executions=%d distinct=%d violations=%d known=%d wall=%.1fs loghash=%016x\n",
 		prop, tier, totalRuns, evals, len(distinct), nviol, knownHit, wall, hashAll)
 	if nviol > 0 {
-		return core.ExitViolation
+		return core.ExitViolation // real even if some shard got into trouble afterwards
+	}
+	if trouble {
+		fmt.Fprintln(os.Stderr, "dst: a shard ended in trouble (watchdog or crash) and no violation was found: exit 2, not a verdict")
+		return core.ExitTrouble
 	}
 	return core.ExitOK
 }
